@@ -48,7 +48,12 @@
                                       pid nreq <ohdr>*
               fresh: the challenge atom armed for each Run call, in order; the responses in the
               order served; pid: the peer id AuthenticatedDo returned (-1 = it returned an error);
-              nreq requests were received, ohdr = their Authorization headers. *)
+              nreq requests were received, ohdr = their Authorization headers.
+   kind 7   a history of AuthenticatedDo calls on ONE ClientPeerIDAuth (token cache) for one hostname,
+            every call against scripted servers over HTTP, req.GetBody set:
+                                    7 ckey host ncalls call*
+              call = nfresh fresh* nresp (status <vtable> <www:bytes> <info:bytes>)* pid nreq <ohdr>*
+              (as in kind 5; status matters for the first response of a call that presents a stored token) *)
 From Coq Require Import List NArith ZArith Bool.
 From Verif Require Import lib.Wire c08.Varint c08.SymCrypto gen.Consts_c19 c19.Model.
 Import ListNotations.
@@ -455,9 +460,9 @@ Fixpoint get_resps (n : nat) (l : list Z) : option (list resp * list Z) :=
   match n with
   | O => Some ([], l)
   | S k =>
-      do (_, r0) <- get_z l; do (tbl, r1) <- get_vtable r0;
+      do (st, r0) <- get_z l; do (tbl, r1) <- get_vtable r0;
       do (www, r2) <- get_bytes r1; do (info, r3) <- get_bytes r2;
-      do (rest, r4) <- get_resps k r3; Some (mkResp tbl www info :: rest, r4)
+      do (rest, r4) <- get_resps k r3; Some (mkResp st tbl www info :: rest, r4)
   end.
 
 Fixpoint get_ohdrs (n : nat) (l : list Z) : option (list ohdr * list Z) :=
@@ -504,6 +509,76 @@ Definition monitor5 (c : case5) : list Z :=
     then [] else viol 5 [c5_pid c]
   else [].
 
+(* ---- kind 7: a history of AuthenticatedDo calls on one ClientPeerIDAuth ------------------ *)
+Record call7 := mkCall { ca_fresh : list N; ca_resps : list resp; ca_pid : Z; ca_reqs : list ohdr }.
+
+Fixpoint get_calls (n : nat) (l : list Z) : option (list call7 * list Z) :=
+  match n with
+  | O => Some ([], l)
+  | S k =>
+      do (nf, r0) <- get_z l;
+      if small nf then
+        do (fr, r1) <- get_ns (Z.to_nat nf) r0; do (nr, r2) <- get_z r1;
+        if small nr then
+          do (rs, r3) <- get_resps (Z.to_nat nr) r2; do (pid, r4) <- get_z r3; do (nq, r5) <- get_z r4;
+          if small nq then
+            do (qs, r6) <- get_ohdrs (Z.to_nat nq) r5;
+            do (rest, r7) <- get_calls k r6; Some (mkCall fr rs pid qs :: rest, r7)
+          else None
+        else None
+      else None
+  end.
+
+Definition decode7 (l : list Z) : option (N * N * list call7) :=
+  do (k, r) <- get_n l; do (host, r1) <- get_n r; do (n, r2) <- get_z r1;
+  if small n then
+    do (cs, r3) <- get_calls (Z.to_nat n) r2;
+    match r3 with [] => Some (k, host, cs) | _ => None end
+  else None.
+
+Fixpoint conform_calls (k h : N) (ca : cache) (i : Z) (calls : list call7) : list Z :=
+  match calls with
+  | [] => []
+  | c :: r =>
+      match auth_call_i k h ca (ca_resps c) (ca_fresh c) with
+      | None => malformed 71
+      | Some (pid, qs, ca') =>
+          if negb (z_of_on pid =? ca_pid c) then mism 70 [i; z_of_on pid; ca_pid c]
+          else if negb (list_eqb ohdr_eqb qs (ca_reqs c)) then mism 71 [i; zlen qs; zlen (ca_reqs c)]
+          else conform_calls k h ca' (i + 1) r
+      end
+  end.
+
+(* a call that only presented a stored token: one request, and it carries no challenge *)
+Definition is_token_path (reqs : list ohdr) : bool :=
+  match reqs with
+  | [q] => match emitted_challenges q with [] => true | _ => false end
+  | _ => false
+  end.
+
+(* The property along a history.  [last] = the random draws and the received values
+   of the most recent call that returned an id through a handshake: the token in
+   use was produced by that handshake.  A call that runs a handshake must prove
+   the id it returns in that very call; a call that only presents the stored
+   token must return an id that the handshake which produced the token proved. *)
+Fixpoint monitor_calls (k h : N) (last : option (list term * list term)) (i : Z) (calls : list call7) : list Z :=
+  match calls with
+  | [] => []
+  | c :: r =>
+      if 0 <=? ca_pid c then
+        let p := Z.to_N (ca_pid c) in
+        if is_token_path (ca_reqs c) then
+          match last with
+          | Some (F, V) => if proves k h F V p then monitor_calls k h last (i + 1) r else viol 7 [i; ca_pid c]
+          | None => viol 7 [i; ca_pid c]
+          end
+        else
+          let F := map atom (ca_fresh c) in
+          let V := resp_values (ca_resps c) in
+          if proves k h F V p then monitor_calls k h (Some (F, V)) (i + 1) r else viol 8 [i; ca_pid c]
+      else monitor_calls k h last (i + 1) r
+  end.
+
 (* ---- the two entry points -------------------------------------------------------------- *)
 Definition conform_case (l : list Z) : list Z :=
   match l with
@@ -515,6 +590,10 @@ Definition conform_case (l : list Z) : list Z :=
               | None => malformed 4
               end
   | 5 :: r => match decode5 r with Some c => conform5 c | None => malformed 5 end
+  | 7 :: r => match decode7 r with
+              | Some (k, host, cs) => conform_calls k host None 0 cs
+              | None => malformed 7
+              end
   | _ => malformed 0
   end.
 
@@ -528,5 +607,9 @@ Definition monitor_case (l : list Z) : list Z :=
               | None => malformed 4
               end
   | 5 :: r => match decode5 r with Some c => monitor5 c | None => malformed 5 end
+  | 7 :: r => match decode7 r with
+              | Some (k, host, cs) => monitor_calls k host None 0 cs
+              | None => malformed 7
+              end
   | _ => malformed 0
   end.
